@@ -10,6 +10,7 @@ from vp import core
 from props import c04_gen as G
 from props import c04_ir as I
 from props import c04_sk as S
+from props import c04_unreg as U
 
 META = {
     "title": "Generic textual form round-trips every valid IR",
@@ -45,7 +46,9 @@ META = {
         "every hint list over a small adversarial alphabet up to the length bound (values, blocks, "
         "nested isolated scopes) and on random nested programs. The whole property (equivalent IR after "
         "print→parse in a fresh Context, identical text on re-print, print twice, print clone) is "
-        "checked directly, with an own canonical serialisation, on those generated programs, on every "
+        "checked directly, with an own canonical serialisation, on those generated programs, on generated modules "
+        "with unregistered-dialect attributes and types whose verbatim bodies exercise the raw bracket/string "
+        "scanner of the parser, on every "
         "parseable+verifying chunk of tests/**/*.mlir with all dialects registered, and on pass outputs."
     ),
     "technique": "Lean 4 proofs on the name-allocation model + exhaustive/random differential correspondence + direct round-trip oracle over generated programs, the .mlir corpus and pass outputs",
@@ -77,6 +80,13 @@ META = {
         "nested programs with multi-block regions, forward uses, isolated scopes; non-trivial = ≥2 equal "
         "stems in one scope. corpus/pass: every chunk that parses and verifies; non-trivial = has ≥1 "
         "named value or block, or ≥1 attribute. Distinct = distinct spec / distinct (file, chunk[, pass]). "
+        "unreg: modules built through the API whose operations carry attributes/types of an unregistered dialect "
+        "(pretty, bodiless and opaque form) in attribute dictionaries, properties, result/operand/block-argument "
+        "types and inside array/dictionary/function/tuple containers; bodies = every string literal over the "
+        "pieces {escaped quote, escaped backslash, `]`, `>`, letter} up to the length bound (alone, followed by "
+        "brackets, inside brackets) and random bodies from a grammar of balanced `()[]{}<>`, strings with escaped "
+        "quotes/backslashes/brackets/`>`/`->`/`//`, commas, nested unregistered and builtin attributes; every such "
+        "module is non-trivial. "
         "skeleton: every module of the families above that prints and re-parses, plus hand-written corner "
         "texts and token-level mutations of printed streams (real parser vs parseSk: accept/reject and structure)."
     ),
@@ -126,6 +136,11 @@ def classify_rt(rt: I.RT) -> tuple[str, str, str]:
     """(call_site, signature, description) for a failed round trip"""
     d = rt.detail
     if rt.stage == "reparse":
+        if "dialect symbol body" in d:
+            return ("xdsl.parser.attribute_parser.AttrParser._raw_scan_balanced",
+                    "printed body of an unregistered attribute/type does not parse back",
+                    "the generic printer writes the body of an unregistered attribute verbatim; the scanner that looks "
+                    "for its closing `>` fails on it: " + d)
         if "already defined" in d:
             return ("xdsl.printer.Printer.print_ssa_value", "two values defined with one name",
                     "the printed text defines one value name twice: " + d)
@@ -467,7 +482,19 @@ def has_inherent_attr_in_dict(module) -> bool:
     return False
 
 
-def check_module(ctx: core.Ctx, module, case: dict[str, Any], family: str, sk: "S.SkBatch | None" = None) -> bool:
+def classify_unreg(rt: I.RT) -> tuple[str, str, str]:
+    """in the `unreg` family the only text that is not plain skeleton is the verbatim body of an
+    unregistered attribute: a text that does not parse back is charged to the body scanner"""
+    if rt.stage == "reparse":
+        return ("xdsl.parser.attribute_parser.AttrParser._raw_scan_balanced",
+                "printed body of an unregistered attribute/type does not parse back",
+                "the generic printer writes the body of an unregistered attribute verbatim; the parser does not "
+                "find its end: " + rt.detail)
+    return classify_rt(rt)
+
+
+def check_module(ctx: core.Ctx, module, case: dict[str, Any], family: str, sk: "S.SkBatch | None" = None,
+                 classify=None) -> bool:
     """the direct oracle of the property on one verified module; True = holds"""
     ctx.ev()
     rt = I.roundtrip(module, with_metadata=True)
@@ -486,7 +513,7 @@ def check_module(ctx: core.Ctx, module, case: dict[str, Any], family: str, sk: "
         if t3 == rt.text2:
             ctx.count(f"{family}.normalised_inherent_attr")
             return True
-    site, sig, desc = classify_rt(rt)
+    site, sig, desc = (classify or classify_rt)(rt)
     ctx.fail(site, sig, case, desc, {"stage": rt.stage, "detail": rt.detail[:600]}, None)
     ctx.count(f"{family}.fail.{rt.stage}")
     return False
@@ -509,6 +536,54 @@ def run_corner(ctx: core.Ctx, mut: "S.MutBatch", k: int) -> None:
     sk.finish()
     for c in cases:
         mut.add(c, k)
+
+
+def run_unreg(ctx: core.Ctx, n_random: int, str_len: int, chunk: int = 40) -> None:
+    """unregistered dialect attributes and types with generated bodies (see c04_unreg.py)"""
+    sk = S.SkBatch(ctx, "unreg")
+
+    def one(spec: dict[str, Any], key: Any) -> None:
+        try:
+            m = U.build(spec)
+            m.verify()
+        except Exception as e:  # noqa: BLE001
+            raise core.InfraError(f"C04 unreg: a generated spec does not build/verify: {core.exc_name(e)}: {e}") from e
+        ctx.count("unreg.modules")
+        ctx.nt(("unreg", key))
+        rt = I.roundtrip(m, check_clone=False)
+        if rt.ok:
+            ctx.ev()
+            sk.add(m, {"family": "unreg", "spec": spec}, True, rt.m2)
+            return
+        # shrink: the smallest sub-spec that fails with the same classification
+        sig = classify_unreg(rt)[1]
+        best = spec
+        for cand in U.sub_specs(spec):
+            try:
+                mc = U.build(cand)
+                mc.verify()
+                rc = I.roundtrip(mc, check_clone=False)
+            except Exception:  # noqa: BLE001
+                continue
+            if not rc.ok and classify_unreg(rc)[1] == sig and len(str(cand)) < len(str(best)):
+                best = cand
+        check_module(ctx, U.build(best), {"family": "unreg", "spec": best}, "unreg", classify=classify_unreg)
+
+    # every string literal over the core pieces, alone and followed by brackets, as attribute and as type
+    bodies: list[str] = []
+    for st in U.exhaustive_strings(str_len):
+        bodies += [st, st + ", [1, 2]", "{k = " + st + "}, (" + st + ")"]
+    ctx.count("unreg.exhaustive_bodies", len(bodies))
+    for k in range(0, len(bodies), chunk):
+        part = bodies[k:k + chunk]
+        one(U.spec_of_bodies(part, False), ("attr", k))
+        one(U.spec_of_bodies(part, True), ("type", k))
+    for k in range(n_random):
+        if ctx.time_left() < 20:
+            break
+        one(U.random_spec(ctx.rng, ctx.rng.randint(1, 6)), ("random", k))
+    sk.finish()
+    ctx.sample({"family": "unreg", "text": I.print_generic(U.build(U.spec_of_bodies(['"a\\"]", {k = "v\\")"}'], False)))})
 
 
 def module_nontrivial(text: str) -> bool:
@@ -617,6 +692,7 @@ def run(ctx: core.Ctx) -> None:
     if ctx.tier == "quick":
         timed("accept", run_accept, ctx, 300)
         timed("corner", run_corner, ctx, mut, 25)
+        timed("unreg", run_unreg, ctx, 400, 3)
         timed("names", run_names, ctx, val_len=4, ext_len=2, blk_len=3, blk_ext_len=2, scoped_len=4, sk_stride=3)
         timed("random", run_random, ctx, 500, mut, 0.15, 8)
         # the skeleton leg sees every second verified chunk per run (which half depends on the seed)
@@ -625,6 +701,7 @@ def run(ctx: core.Ctx) -> None:
     else:
         timed("accept", run_accept, ctx, 5000)
         timed("corner", run_corner, ctx, mut, 400)
+        timed("unreg", run_unreg, ctx, 3000, 4)
         timed("names", run_names, ctx, val_len=5, ext_len=3, blk_len=4, blk_ext_len=3, scoped_len=5)
         timed("random", run_random, ctx, 8000, mut, 0.2, 20)
         timed("corpus", run_corpus, ctx, stride=1, pass_names=PASSES_THOROUGH, pass_stride=1, mut=mut, mut_p=0.5, mut_k=20)
@@ -645,6 +722,8 @@ def replay(ctx: core.Ctx, body: dict) -> int:
             return S.replay_mutation(ctx, case)
         if fam in ("values", "blocks", "scoped", "random"):
             m = G.build(case["spec"])
+        elif fam == "unreg":
+            m = U.build(case["spec"])
         elif fam == "corner":
             m = I.parse_module(case["text"])
         elif fam in ("corpus", "pass"):
@@ -683,9 +762,12 @@ def replay(ctx: core.Ctx, body: dict) -> int:
             impl = "raise ValueError"
         model = ctx.model("names", ["accept " + ",".join(str(ord(c)) for c in raw)])[0]
         print("raw:", repr(raw), "implementation:", impl, "model:", model)
-    elif fam in ("corpus", "pass", "corner"):
-        text = case["text"] if fam == "corner" else (core.REPO / case["file"]).read_text().split("// -----")[case["chunk"]]
-        if fam == "pass":
+    elif fam in ("corpus", "pass", "corner", "unreg"):
+        text = "" if fam == "unreg" else case["text"] if fam == "corner" else (core.REPO / case["file"]).read_text().split("// -----")[case["chunk"]]
+        if fam == "unreg":
+            m = U.build(case["spec"])
+            print(I.print_generic(m))
+        elif fam == "pass":
             p = dict(load_passes([case["pass"]]))[case["pass"]]
             m = apply_pass(p, text)
         else:
